@@ -5,7 +5,6 @@ use std::{
 	time::Duration,
 };
 
-use futures::{future::select, FutureExt};
 use watchexec_signals::Signal;
 
 use crate::flag::Flag;
@@ -142,7 +141,14 @@ impl Ticket {
 impl Future for Ticket {
 	type Output = ();
 
-	fn poll(self: Pin<&mut Self>, cx: &mut Context<'_>) -> Poll<Self::Output> {
-		Pin::new(&mut select(self.job_gone.clone(), self.control_done.clone()).map(|_| ())).poll(cx)
+	fn poll(mut self: Pin<&mut Self>, cx: &mut Context<'_>) -> Poll<Self::Output> {
+		// poll both flags in place so that each keeps its waker registration between polls
+		let gone = Pin::new(&mut self.job_gone).poll(cx);
+		let done = Pin::new(&mut self.control_done).poll(cx);
+		if gone.is_ready() || done.is_ready() {
+			Poll::Ready(())
+		} else {
+			Poll::Pending
+		}
 	}
 }
